@@ -852,6 +852,15 @@ impl ArchiveIndex {
     }
 }
 
+/// verif hook: access to the private TOC consistency check (compiled only under `cfg(kani)`)
+#[cfg(kani)]
+impl ArchiveIndex {
+    /// Calls the private `validate_toc_consistency`.
+    pub fn verif_validate_toc_consistency(&self) -> ArchiveResult<()> {
+        self.validate_toc_consistency()
+    }
+}
+
 /// Archive index builder
 pub struct ArchiveIndexBuilder {
     entries: Vec<IndexEntry>,
